@@ -195,6 +195,7 @@ class Check:
         self.transitions = 0
         self.traces = 0
         self.evaluations = 0
+        self.distinct = 0      # measured by the stages (distinct non-trivial cases)
         self.samples = []
         self.stages = []
         self.violations = []   # dicts
@@ -245,8 +246,10 @@ class Check:
             "transitions": self.transitions,
             "traces_validated_against_impl": self.traces,
             "evaluations": max(self.evaluations, self.traces),
-            "distinct_nontrivial": self.extra.pop("distinct_nontrivial", max(self.traces, 0)),
-            "rule": self.extra.pop("rule", ""),
+            "distinct_nontrivial": self.distinct,
+            "rule": self.extra.pop("rule", "") + " | distinct_nontrivial is measured: distinct (context, haystack, span, call kind, anchoring) "
+                    "tuples with >=1 pattern and a non-empty span among recorded calls, plus distinct dumped automata "
+                    "with >=3 reachable states, plus distinct recorded lines of other event kinds",
             "samples": self.samples if self.samples else ["(no sample recorded)"],
             "stages": self.stages,
             "drift": self.drift[:50],
